@@ -55,8 +55,8 @@ theorem IdAux.mem_sortBy {α : Type} (lt : α → α → Bool) (l : List α) (a 
     | cons b l ih =>
       simp only [insertBy]
       split
-      · simp
       · simp only [List.mem_cons, ih]; tauto
+      · simp
   induction l with
   | nil => simp [sortBy]
   | cons b l ih =>
